@@ -916,19 +916,43 @@ O make_opt(C code, bool spoof, size_t lenfield, const std::vector<uint8_t>& d) {
     if (spoof) return O(code, (uint16_t)lenfield, d.begin(), d.end());
     return O(code, d.begin(), d.end());
 }
-void api_add(PDU& p, OC oc, uint32_t code, bool spoof, size_t lf, const std::vector<uint8_t>& d) {
+// how the container entry is handed over: 0 = rvalue overload (add_option(option&&)), 1 = lvalue overload (add_option(const option&)),
+// 2 = IPv6 only: the deprecated lvalue spelling add_ext_header(const ext_header&)
+template <class P, class O> void add_opt_how(P& p, O o, unsigned how) {
+    if (how) { const O& ref = o; p.add_option(ref); } else p.add_option(std::move(o));
+}
+void api_add(PDU& p, OC oc, uint32_t code, bool spoof, size_t lf, const std::vector<uint8_t>& d, unsigned how = 0) {
     switch (oc) {
-        case OC_TCP: static_cast<TCP&>(p).add_option(make_opt<TCP::option>((TCP::OptionTypes)code, spoof, lf, d)); break;
-        case OC_IP: static_cast<IP&>(p).add_option(make_opt<IP::option>(IP::option_identifier((uint8_t)code), spoof, lf, d)); break;
-        case OC_IPV6: static_cast<IPv6&>(p).add_header(make_opt<IPv6::ext_header>((uint8_t)code, spoof, lf, d)); break;
-        case OC_ICMPV6: static_cast<ICMPv6&>(p).add_option(make_opt<ICMPv6::option>((uint8_t)code, spoof, lf, d)); break;
-        case OC_DHCP: static_cast<DHCP&>(p).add_option(make_opt<DHCP::option>((uint8_t)code, spoof, lf, d)); break;
-        case OC_DHCPV6: static_cast<DHCPv6&>(p).add_option(make_opt<DHCPv6::option>((uint16_t)code, spoof, lf, d)); break;
-        case OC_DOT11: static_cast<Dot11&>(p).add_option(make_opt<Dot11::option>((uint8_t)code, spoof, lf, d)); break;
-        case OC_PPPOE: static_cast<PPPoE&>(p).add_tag(make_opt<PPPoE::tag>((PPPoE::TagTypes)code, spoof, lf, d)); break;
+        case OC_TCP: add_opt_how(static_cast<TCP&>(p), make_opt<TCP::option>((TCP::OptionTypes)code, spoof, lf, d), how); break;
+        case OC_IP: add_opt_how(static_cast<IP&>(p), make_opt<IP::option>(IP::option_identifier((uint8_t)code), spoof, lf, d), how); break;
+        case OC_IPV6: {
+            IPv6::ext_header h = make_opt<IPv6::ext_header>((uint8_t)code, spoof, lf, d);
+            const IPv6::ext_header& ref = h;
+            if (how == 1) static_cast<IPv6&>(p).add_header(ref);
+            else if (how == 2) static_cast<IPv6&>(p).add_ext_header(ref);
+            else static_cast<IPv6&>(p).add_header(std::move(h));
+            break;
+        }
+        case OC_ICMPV6: add_opt_how(static_cast<ICMPv6&>(p), make_opt<ICMPv6::option>((uint8_t)code, spoof, lf, d), how); break;
+        case OC_DHCP: add_opt_how(static_cast<DHCP&>(p), make_opt<DHCP::option>((uint8_t)code, spoof, lf, d), how); break;
+        case OC_DHCPV6: static_cast<DHCPv6&>(p).add_option(make_opt<DHCPv6::option>((uint16_t)code, spoof, lf, d)); break;   // one overload only
+        case OC_DOT11: add_opt_how(static_cast<Dot11&>(p), make_opt<Dot11::option>((uint8_t)code, spoof, lf, d), how); break;
+        case OC_PPPOE: {
+            PPPoE::tag tg = make_opt<PPPoE::tag>((PPPoE::TagTypes)code, spoof, lf, d);
+            const PPPoE::tag& ref = tg;
+            if (how) static_cast<PPPoE&>(p).add_tag(ref); else static_cast<PPPoE&>(p).add_tag(std::move(tg));
+            break;
+        }
         default: break;
     }
 }
+// the overload is a choice drawn LAST in the step's sub-stream (older choice sequences decode to the rvalue overload)
+unsigned pick_how(OC oc, Src& st) {
+    unsigned h = (unsigned)st.weighted({2, 2, 1});
+    if (h == 2 && oc != OC_IPV6) h = 1;
+    return h;
+}
+const char* how_text(unsigned how) { return how == 0 ? "" : how == 1 ? " [lvalue]" : " [add_ext_header]"; }
 bool has_remove(OC oc) { return oc != OC_IPV6 && oc != OC_PPPOE && oc != OC_NONE; }
 bool api_remove(PDU& p, OC oc, uint32_t code) {
     switch (oc) {
@@ -1411,9 +1435,10 @@ struct Prog {
         size_t lf = spoof ? (size_t)st.range(0, 40) : len;
         if (lf == len) spoof = false;
         if (!fits(m, code, len)) { ctx.excluded("option-beyond-format-capacity"); return; }
-        std::string line = "L" + std::to_string(i) + " " + m.cls + "::add(" + code_text(m.oc, code) + "," + std::to_string(lf) + "," + hexs(d) + ")";
+        const unsigned how = pick_how(m.oc, st);
+        std::string line = "L" + std::to_string(i) + " " + m.cls + "::add(" + code_text(m.oc, code) + "," + std::to_string(lf) + "," + hexs(d) + ")" + how_text(how);
         try {
-            api_add(p, m.oc, code, spoof, lf, d);
+            api_add(p, m.oc, code, spoof, lf, d, how);
         } catch (const exception_base& e) {
             text.push_back(line);
             VFAIL(ctx, "C04:" + m.cls + ":add-throws:" + demangled(typeid(e)), program());
@@ -1429,6 +1454,7 @@ struct Prog {
         ++raw_opts;
         count_opt(o);
         ctx.label(readd ? "re-add" : "raw-add");
+        if (how) ctx.label("add-lvalue-overload");
         check_layer(i, readd ? "re-add" : "add", "", code);
     }
     void remove_step(size_t i, Src& st) {
@@ -1641,12 +1667,14 @@ struct Prog {
         std::vector<uint8_t> d = victim.data;
         for (uint8_t& b : d) b = (uint8_t)(b ^ 0x5a ^ st.u8());
         if (d.empty()) { check_layer(i, "remove", "", victim.code); return; }
+        const unsigned how = pick_how(m.oc, st);
         try {
-            api_add(p, m.oc, victim.code, false, d.size(), d);
+            api_add(p, m.oc, victim.code, false, d.size(), d, how);
         } catch (const exception_base& e) {
             VFAIL(ctx, "C04:" + m.cls + ":add-throws:" + demangled(typeid(e)), program());
         }
-        text.push_back("L" + std::to_string(i) + " " + m.cls + "::add(" + code_text(m.oc, victim.code) + "," + std::to_string(d.size()) + "," + hexs(d) + ") [same-size replace]");
+        if (how) ctx.label("add-lvalue-overload");
+        text.push_back("L" + std::to_string(i) + " " + m.cls + "::add(" + code_text(m.oc, victim.code) + "," + std::to_string(d.size()) + "," + hexs(d) + ") [same-size replace]" + how_text(how));
         MOpt o;
         o.code = victim.code;
         o.data = d;
